@@ -272,6 +272,17 @@ class World20:
             else:
                 if m.get('cont') == 'nd':
                     vals = np.array(m['vals'], dtype=m.get('dtype', 'float64'))
+                    if m.get('view') == 'strided':
+                        base = np.zeros(2 * len(vals), dtype=vals.dtype)
+                        base[::2] = vals
+                        vals = base[::2]                     # non-contiguous view
+                    elif m.get('view') == 'row':
+                        base = np.zeros((3, len(vals)), dtype=vals.dtype)
+                        base[1] = vals
+                        vals = base[1]                       # a row of a 2-D array
+                    self._bases = getattr(self, '_bases', []) + [vals.base]
+                elif m.get('npscalars'):
+                    vals = [np.float64(v) if isinstance(v, float) else np.int64(v) for v in m['vals']]
                 else:
                     vals = list(m['vals'])
                 ref = {k: v for k, v in zip(keys, m['vals'])}
